@@ -49,31 +49,42 @@ def scan (marks : Marks) (found : List Entry) : List Entry × Nat :=
     | some sz => (acc.1, acc.2 + sz)
     | none => (acc.1 ++ [e], acc.2 + e.size)) ([], 0)
 
+/-- What the eviction loop did with the candidates. -/
+structure Outcome where
+  evicted : List Entry     -- renamed aside and removed
+  kept : List Entry        -- untouched: marked, not renameable, or after the loop stopped
+  half : List Entry        -- renamed aside, but the removal of the renamed entry failed: gone under its name, left
+                           -- (possibly partly deleted) as `<path>=`; its size is NOT subtracted
+  total : Nat
+  deriving DecidableEq, Repr
+
 /-- The eviction loop over the candidates in the order `sort.Slice` left them (ANY order: the comparator with a
-    grace period is not a strict weak order).  `marks'` are the marks as the loop sees them (entries may have been
-    marked since the walk), `ok p` says that renaming `p` aside and removing it both succeed.
-    Returns (evicted, kept, total). -/
-def evict (marks' : Marks) (ok : Bytes → Bool) (low : Nat) : List Entry → Nat → List Entry × List Entry × Nat
-  | [], t => ([], [], t)
+    grace period is not a strict weak order).  `marks'` are the marks as the loop sees them at its `isMarked` test
+    (entries may have been marked since the walk); `rn p` / `rm p` say that `os.Rename(p, p+"=")` / `RemoveAll(p+"=")`
+    succeed — both failures are logged and the loop `continue`s. -/
+def evict (marks' : Marks) (rn rm : Bytes → Bool) (low : Nat) : List Entry → Nat → Outcome
+  | [], t => ⟨[], [], [], t⟩
   | e :: rest, t =>
     if (marks' e.path).isSome then
-      let r := evict marks' ok low rest t
-      (r.1, e :: r.2.1, r.2.2)
-    else if !ok e.path then
-      let r := evict marks' ok low rest t
-      (r.1, e :: r.2.1, r.2.2)
+      let r := evict marks' rn rm low rest t
+      { r with kept := e :: r.kept }
+    else if !rn e.path then
+      let r := evict marks' rn rm low rest t
+      { r with kept := e :: r.kept }
+    else if !rm e.path then
+      let r := evict marks' rn rm low rest t
+      { r with half := e :: r.half }
     else
       let t' := t - e.size
-      if t' < low then ([e], rest, t')
+      if t' < low then ⟨[e], rest, [], t'⟩
       else
-        let r := evict marks' ok low rest t'
-        (e :: r.1, r.2.1, r.2.2)
+        let r := evict marks' rn rm low rest t'
+        { r with evicted := e :: r.evicted }
 
 /-- `clean(high, low)`. `order` is what the sort made of the candidates. -/
-def clean (marks marks' : Marks) (ok : Bytes → Bool) (high low : Nat) (found order : List Entry) :
-    List Entry × List Entry × Nat :=
+def clean (marks marks' : Marks) (rn rm : Bytes → Bool) (high low : Nat) (found order : List Entry) : Outcome :=
   let sc := scan marks found
-  if sc.2 < high then ([], sc.1, sc.2) else evict marks' ok low order sc.2
+  if sc.2 < high then ⟨[], sc.1, [], sc.2⟩ else evict marks' rn rm low order sc.2
 
 /-- The order the sort produces when every two candidates are at least a grace period apart: oldest first. -/
 def insertByAtime (e : Entry) : List Entry → List Entry
